@@ -18,6 +18,7 @@ import random
 import sys
 import time
 
+import numpy as np
 import z3
 
 from vlib import dfork, harness, symx
@@ -61,6 +62,12 @@ def spec_formula(n, E, okind, dflag, share):
 
 
 _POOL = {}
+
+
+def _symC():
+    """capacities are 'float or variable': a CasADi symbol is a legitimate capacity"""
+    import casadi as cs
+    return cs.SX.sym("C")
 
 
 def pooled(key, make):
@@ -109,7 +116,7 @@ def build_and_validate(n, pairs, okind, dflag, share, flagvals=None):
                 alt = (i + k_) % 2 == 0
                 o = pooled(("origin", okind[i], alt, k_), lambda: (
                     (M.Origin(name=f"O{k_}a") if alt else M.MainstreamOrigin(name=f"O{k_}b")) if okind[i] == 1 else
-                    (M.MeteredOnRamp(2000, name=f"O{k_}c") if alt else M.SimplifiedMeteredOnRamp(2000, name=f"O{k_}d"))))
+                    (M.MeteredOnRamp(_symC(), name=f"O{k_}c") if alt else M.SimplifiedMeteredOnRamp(np.array([2000.0, 1500.0])[:1] * 0 + 2000.0, name=f"O{k_}d"))))
             if share and share[0] == "samename":
                 o = type(o)(2000, name="samename") if okind[i] == 2 else type(o)(name="samename")
             origins[i] = o
